@@ -262,7 +262,7 @@ pub fn check_input(ctx: &Ctx, rep: &mut Report, inp: &Input, rng: &mut Rng, exha
 }
 
 pub fn run(ctx: &Ctx, rep: &mut Report) {
-    let n_ex = ctx.n(1600, 90_000);
+    let n_ex = ctx.n(3200, 90_000);
     let n_big = ctx.n(800, 30_000);
     for k in ctx.cases(n_ex + n_big) {
         rep.cur_case = k;
